@@ -1167,6 +1167,10 @@ func c08Comparators(w *World, o *Out, fl *Flow) {
 				if mc, ok := a.(*ssa.MakeClosure); ok {
 					cmp = mc.Fn.(*ssa.Function)
 				}
+				// a function literal without free variables is a plain function value
+				if fn, ok := a.(*ssa.Function); ok && fn.Parent() != nil {
+					cmp = fn
+				}
 			}
 			if cmp == nil || len(cmp.Params) < 2 {
 				continue
@@ -1198,14 +1202,44 @@ func c08Comparators(w *World, o *Out, fl *Flow) {
 			if len(keyFields) == 0 {
 				continue
 			}
-			read := map[string]bool{}
+			// per comparator parameter: which fields of it are read
+			read := map[string]map[ssa.Value]bool{}
+			note := func(x ssa.Value, name string) {
+				root := x
+				for i := 0; i < 8; i++ {
+					switch y := root.(type) {
+					case *ssa.UnOp:
+						root = y.X
+						continue
+					case *ssa.IndexAddr:
+						root = y.X
+						continue
+					case *ssa.FieldAddr:
+						root = y.X
+						continue
+					}
+					break
+				}
+				// parameters spilled to an Alloc: identify by the stored parameter
+				if al, isAl := root.(*ssa.Alloc); isAl {
+					for _, rf := range *al.Referrers() {
+						if st2, isSt := rf.(*ssa.Store); isSt && st2.Addr == ssa.Value(al) {
+							root = st2.Val
+						}
+					}
+				}
+				if read[name] == nil {
+					read[name] = map[ssa.Value]bool{}
+				}
+				read[name][root] = true
+			}
 			for _, b := range cmp.Blocks {
 				for _, in := range b.Instrs {
 					if fa, ok := in.(*ssa.FieldAddr); ok {
-						read[fieldName(fa.X.Type(), fa.Field)] = true
+						note(fa.X, fieldName(fa.X.Type(), fa.Field))
 					}
 					if fi, ok := in.(*ssa.Field); ok {
-						read[fieldName(fi.X.Type(), fi.Field)] = true
+						note(fi.X, fieldName(fi.X.Type(), fi.Field))
 					}
 				}
 			}
@@ -1213,13 +1247,25 @@ func c08Comparators(w *World, o *Out, fl *Flow) {
 			var kf []string
 			for k := range keyFields {
 				kf = append(kf, k)
-				if read[k] {
+				// index-based comparators (sort.Slice) read elements of the captured slice: one root; value
+				// comparators must read the key field of *both* parameters
+				if len(read[k]) >= 2 || (len(read[k]) == 1 && !isParamRoot(read[k])) {
 					ok = true
 				}
 			}
+			sort.Strings(kf)
 			_ = st
 			o.Check("C08.R2", w.FuncKey(f)+"|comparator breaks ties on the map key", ok, w.Pos(s.Instr.Pos()),
 				"the comparator restoring order after a map range must compare the field filled from the map key ("+strings.Join(kf, ",")+"), otherwise equal-score elements keep map iteration order")
 		}
 	}
+}
+
+func isParamRoot(m map[ssa.Value]bool) bool {
+	for v := range m {
+		if _, ok := v.(*ssa.Parameter); ok {
+			return true
+		}
+	}
+	return false
 }
